@@ -75,7 +75,7 @@ class TinyDB(DataBase):
         attribute: str
             attribute to be searched for
         """
-        nested_fields = attribute.split(".")
+        nested_fields = ["dataObject"] + attribute.split(".")
         # Dynamically build the query
         for field in nested_fields:
             query = getattr(query, field)
